@@ -33,7 +33,7 @@ MAY_TOUCH = [
     (r"^volatile_memory::VolatileArrayRef::(copy_to|copy_from)$", "element loops (T-sized volatile accesses)"),
     (r"^volatile_memory::Volatile(Slice|ArrayRef)::copy_to_volatile_slice$", "slice-to-slice ptr::copy"),
     (r"^io::(read|write)_volatile_raw_fd$", "descriptor I/O straight into / out of the slice"),
-    (r"Bytes<usize>>::(store|load)::\{closure#0\}$", "atomic access through get_atomic_ref"),
+    (r"Bytes<usize>>::(store|load)$", "atomic access through get_atomic_ref"),
 ]
 
 
@@ -140,6 +140,12 @@ def run(ctx, progs):
                         # another call that takes a raw pointer)
                         others = [c for c in b.calls() if c.bb != cs[0].bb and not effects.PEEL.search(canon(c.target or ""))
                                   and any(c.arg_ty(i).k == 'ptr' for i in range(len(c.t["args"])))]
+                        # ... and no closure of this function (or of a function inlined into it) writes through a raw pointer
+                        for fb in prog.family(b)[1:]:
+                            for c in fb.calls():
+                                pr = effects.prim_of(c)
+                                if (pr and "dst" in pr[1]) or (not effects.PEEL.search(canon(c.target or "")) and any(c.arg_ty(i).k == 'ptr' for i in range(len(c.t["args"])))):
+                                    others.append(c)
                         only = not others and canon(cs[0].target or "").endswith("ptr::copy")
                         ok = dst_len and src_len and dir_ok and only
                         d = (f"count = min(source bytes [{src_len}], destination bytes [{dst_len}]); direction self -> slice [{dir_ok}]; "
@@ -200,7 +206,8 @@ def run(ctx, progs):
         for role in ("dst", "src"):
             sites, raw, host, problems = tracking.accesses(prog, eff, role)
             for s in sites:
-                touched.setdefault(s["body"].key, s)
+                # a closure belongs to the function that defines it (`x.map(|r| r.store(..))` and `let r = x?; r.store(..)` are the same route)
+                touched.setdefault(strip_generics(s["body"].root) if s["body"].kind == "Closure" and s["body"].root else s["body"].key, s)
             for p in problems:
                 ctx.ob("R4.3.classified", f"{p['body'].key}|{p['kind']}", False, p["body"].where(p["ln"]), "memory access with unclassifiable pointer (fail closed)")
         for key, s in sorted(touched.items()):
